@@ -83,7 +83,7 @@ def run(ctx):
             [{"N": 2, "K": 2, "M": 3, "Confs": ALL}, {"N": 3, "K": 1, "M": 3, "Confs": ALL},
              {"N": 3, "K": 2, "M": 1, "Confs": EAGER}]
     if outside:            # more interleavings when the reading is not serialized: smaller clock domain, same threads
-        small = [{"N": 2, "K": 2, "M": 1, "Confs": EAGER}, {"N": 3, "K": 1, "M": 2, "Confs": ALL}] if ctx.quick else \
+        small = [{"N": 2, "K": 2, "M": 1, "Confs": EAGER}, {"N": 3, "K": 1, "M": 1, "Confs": ALL}] if ctx.quick else \
                 [{"N": 2, "K": 2, "M": 2, "Confs": ALL}, {"N": 3, "K": 1, "M": 3, "Confs": ALL},
                  {"N": 3, "K": 2, "M": 1, "Confs": DEFAULT}]
     for c in small:
